@@ -28,7 +28,8 @@ META = {
              '/ zlib containers, absolute names inside sibling directories'
              " whose names extend the dataset's."
              " Round 12: a name that is a path prefix of another stored name (file / directory conflicts modelled)."
-             " Round 17: one options dictionary object for all factory calls of a history."),
+             " Round 17: one options dictionary object for all factory calls of a history."
+             " Round 18: the dataset directory spelled plainly, with '..' or through a symbolic link."),
     "trusted_base": ["dict model", "Python gzip module", "os.walk snapshots"],
     "assumptions": ["one MIME type per name for the whole history (as every "
                     "caller does)", "names never end in .gz"],
@@ -98,6 +99,22 @@ class FileStore(RuleBasedStateMachine):
         self.root = self._ctx.tmpdir("fs")
         self.base = os.path.join(self.root, "ds")
         os.makedirs(self.base)
+        # how the program spells the directory: plainly, with a ".."
+        # component, or through a symbolic link (the oracle always looks at
+        # the real directory)
+        spelling = ("plain", "plain", "dotdot", "symlink")[
+            (sum(file_mimes) + sum(key_mimes) + level) % 4]
+        self.base_arg = self.base
+        # (the link lives outside the tree that the escape rules snapshot)
+        self.aux = self.root + "_aux"
+        os.makedirs(self.aux)
+        if spelling == "dotdot":
+            self.base_arg = os.path.join(self.aux, "..", os.path.basename(
+                self.root), "ds")
+        elif spelling == "symlink":
+            os.symlink(self.base, os.path.join(self.aux, "link"))
+            self.base_arg = os.path.join(self.aux, "link")
+        self.ops.add("base_spelled_" + spelling)
         with open(os.path.join(self.root, "sentinel"), "wb") as f:
             f.write(b"sentinel")
         os.makedirs(os.path.join(self.root, "ds_sibling"))
@@ -111,6 +128,7 @@ class FileStore(RuleBasedStateMachine):
     def teardown(self):
         if self.root:
             shutil.rmtree(self.root, ignore_errors=True)
+            shutil.rmtree(self.root + "_aux", ignore_errors=True)
 
     # -- helpers ---------------------------------------------------------------
     def make_writer(self, via):
@@ -120,10 +138,11 @@ class FileStore(RuleBasedStateMachine):
         from neuroglancer_scripts import accessor, file_accessor
         if via == "direct":
             return file_accessor.FileAccessor(
-                self.base, flat=self.cfg["flat"], gzip=self.cfg["gzip"],
+                self.base_arg, flat=self.cfg["flat"], gzip=self.cfg["gzip"],
                 compresslevel=self.cfg["compresslevel"])
-        url = {"plain": self.base, "file": "file://" + self.base,
-               "precomputed_file": "precomputed://file://" + self.base}[via]
+        url = {"plain": self.base_arg, "file": "file://" + self.base_arg,
+               "precomputed_file": "precomputed://file://" + self.base_arg
+               }[via]
         # the program keeps ONE options dictionary (vars(args)) and passes it
         # every time it opens the directory
         if not hasattr(self, "shared_opts"):
@@ -403,6 +422,10 @@ class FileStore(RuleBasedStateMachine):
         """The dataset directory is deleted (a failed run is thrown away) and
         the same path is written again in the same process."""
         shutil.rmtree(self.base, ignore_errors=True)
+        if os.path.islink(self.base_arg):
+            # (a directory reached through a link is emptied, not removed: no
+            # program can create a directory through a dangling link)
+            os.makedirs(self.base)
         self.files.clear()
         self.chunks.clear()
         if reopen:
